@@ -126,3 +126,38 @@ void dir_p09(void) {
         emit2(line);
     }
 }
+
+/* ---- C06: long responses.  One unit emits 100..300 items (ASCII-formatted array, or that many scalar result calls):
+ * every item is separated by ',', the unit counts as having responded, the units around it are separated by ';'.
+ * (An item counter narrower than the number of items wraps exactly here.) */
+void dir_p06(void) {
+    static const int counts[] = {100, 126, 127, 128, 129, 130, 180, 254, 255, 256, 257, 258, 300};
+    unsigned long n = h_thorough ? 3000 : 300;
+    static char line[40000], table[30000], s1[12000], stream[200];
+    for (; n; n--) {
+        ent_t e[4]; int cnt = counts[h_below(13)], j, ne = 0; size_t k = 0, sl = 0; unsigned shape = h_below(6), sz = 1u << h_below(2);
+        if (h_chance(70)) {
+            k = (size_t) sprintf(s1, "rA,%u,2,", sz);
+            for (j = 0; j < cnt * (int) sz; j++) k += (size_t) sprintf(s1 + k, "%02x", h_below(256));
+            k += (size_t) sprintf(s1 + k, ",%u", h_below(2));
+        } else {
+            if (cnt > 190) cnt = 190;                       /* the harness runs at most 200 operations per script */
+            for (j = 0; j < cnt; j++) k += (size_t) sprintf(s1 + k, "%srI,32,1,%x,10", j ? "/" : "", h_below(100));
+        }
+        e[ne].pattern = "LNG?"; e[ne++].script = s1;
+        e[ne].pattern = "Q1?"; e[ne++].script = "rI,32,1,1,10";
+        e[ne].pattern = "CMD"; e[ne++].script = "iT";
+        table_of(table, e, ne);
+        switch (shape) {
+            case 0: sl = (size_t) sprintf(stream, "LNG?\n"); break;
+            case 1: sl = (size_t) sprintf(stream, "LNG?;Q1?\n"); break;
+            case 2: sl = (size_t) sprintf(stream, "Q1?;LNG?;Q1?\n"); break;
+            case 3: sl = (size_t) sprintf(stream, "LNG?;CMD\n"); break;
+            case 4: sl = (size_t) sprintf(stream, "CMD;LNG?\nQ1?\n"); break;
+            default: sl = (size_t) sprintf(stream, "LNG?\nLNG?;LNG?\n"); break;
+        }
+        k = (size_t) sprintf(line, "P 256 8 %s", table);
+        k += chunks_of(line + k, stream, sl);
+        emit2(line);
+    }
+}
